@@ -418,7 +418,7 @@ def distribution(pairs):
     d = {}
     for c, o in pairs:
         cmd, toks, table, tag, extra = parse_case(c)
-        kind = (tag.split() or ["corpus"])[0]
+        kind = (tag.split() or ["corpus"])[0] if cmd in DOC else "table/call"
         for k in ("cmd:" + cmd, "kind:" + kind, "result:" + (o.split(" ")[0] if cmd in DOC else "table")):
             d[k] = d.get(k, 0) + 1
         if cmd in DOC:
